@@ -78,7 +78,7 @@ func (*c15Prop) Plans(tier string) []Plan {
 	}
 }
 
-var c15SetOps = []string{"newset", "insert", "insert", "insert", "union", "union", "len", "each", "each-nested"}
+var c15SetOps = []string{"newset", "newset", "insert", "insert", "insert", "union", "union", "len", "each", "each-nested", "scribble"}
 var c15MapOps = []string{"newmap", "inc", "inc", "inc", "filter", "filter", "get", "keys", "mapeach", "mapeach-nested"}
 
 func c15GenOp(r *Rand, hi int) c15Op {
@@ -210,7 +210,7 @@ func newC15Pool() *c15Pool {
 
 func (p *c15Pool) fork() *c15Pool {
 	return &c15Pool{sets: append([]data.IntSet(nil), p.sets...), msets: append([]map[int]struct{}(nil), p.msets...),
-		maps: append([]data.IntMap(nil), p.maps...), mmaps: append([]map[int]int(nil), p.mmaps...), arena: append([]int(nil), p.arena0...), arena0: p.arena0}
+		maps: append([]data.IntMap(nil), p.maps...), mmaps: append([]map[int]int(nil), p.mmaps...), arena: append([]int(nil), p.arena0...), arena0: append([]int(nil), p.arena0...)}
 }
 
 func readSet(s data.IntSet) []int {
@@ -372,6 +372,14 @@ func (p *c15Pool) apply(o c15Op, probes map[string]int64) (class, detail string,
 			return "persist:set", fmt.Sprintf("handle s%d: %s", sa, d), false
 		}
 		p.log = append(p.log, fmt.Sprint(readSet(p.sets[sa])))
+	case "scribble":
+		// the caller re-uses its own slice (a scratch buffer) for something else; sets built
+		// from it earlier must not follow
+		if len(p.arena) > 0 {
+			i := o.A % len(p.arena)
+			p.arena[i], p.arena0[i] = o.V, o.V
+			probes["caller_rewrote_its_slice"]++
+		}
 	case "each-nested":
 		// re-entrancy: while iterating handle A, the callback iterates handle B (and A again)
 		var outer, inner []int
